@@ -1,7 +1,8 @@
 --------------------------- MODULE Trace_Discovery ---------------------------
 (* code -> spec: executions recorded from the real UDPListener on a FakeUDP socket. *)
 (* One trace = one responder life:  build, start, dgram*, end.                      *)
-(*   build  o max g nports enabled exc m     m = projection of _getMessage(65535)   *)
+(*   build  o max sl g nports enabled exc m  m = projection of _getMessage(widest   *)
+(*                                            port in use), sl = 5 - its digits      *)
 (*   start  msgs exc                          what run() sent before first recvfrom  *)
 (*   dgram  cls msgs alive exc                what it sent for this datagram; alive  *)
 (*                                            = it asked for the next datagram       *)
@@ -37,7 +38,7 @@ Clauses(c, e) ==
                   <<"build.msg_wellformed", WF(e.m)>>,
                   <<"build.prefix", IsPrefix(e.m.g, e.g)>>,
                   <<"build.unchanged_if_fits", Fits(e.g, e.o, e.max) => e.m.g = e.g>>,
-                  <<"build.model_fits", IsPrefix(e.m.g, e.g) => Fits(e.m.g, e.o, e.max)>> >>
+                  <<"build.model_fits", IsPrefix(e.m.g, e.g) => Fits(e.m.g, e.o - e.sl, e.max)>> >>
           ELSE <<>>)
     [] e.ev = "start" ->
          << <<"start.no_exception", e.exc = "">> >> \o AllMsgClauses(c, e.msgs, "start") \o
@@ -61,7 +62,7 @@ TInit == /\ t \in 1 .. NT /\ l = 1
          /\ nports = 0 /\ alive = FALSE /\ last = None
 
 TBuild == /\ Ev.ev = "build" /\ phase = "input"
-          /\ BuildOK(Ev.g, Ev.o, Ev.max, Ev.enabled, Ev.m.g)
+          /\ BuildOK(Ev.g, Ev.o, Ev.max, Ev.sl, Ev.enabled, Ev.m.g)
           /\ desc' = Ev.g /\ max' = Ev.max /\ enabled' = Ev.enabled /\ nports' = Ev.nports
           /\ res' = IF Ev.enabled THEN Ev.m.g ELSE Ev.g
           /\ phase' = "built" /\ UNCHANGED <<alive, last>>
